@@ -250,16 +250,17 @@ structure LState where
   staged : List (Str × Entry) := []
   tmp : Str := []
 
-/-- the opaque-marker walk: remove every visited path that this layer did not unpack, no descent -/
-def opaqueWalkP (dirS : Str) (unpacked : List Str) : List (Str × Kind) → List Str → Prog Res
+/-- the opaque-marker walk: remove every visited path that this layer did not unpack, no descent
+    (`skip` = depth of a removed directory whose former descendants are not visited) -/
+def opaqueWalkP (dirS : Str) (unpacked : List Str) : List (Str × Kind × Nat) → Option Nat → Prog Res
   | [], _ => pure .ok
-  | (q, _) :: rest, removed =>
-    if removed.any (fun r => hasPrefix q (r ++ slashStr)) then opaqueWalkP dirS unpacked rest removed
-    else if q = dirS then opaqueWalkP dirS unpacked rest removed
-    else if unpacked.contains q then opaqueWalkP dirS unpacked rest removed
+  | (q, _, d) :: rest, skip =>
+    if (match skip with | some sd => decide (d > sd) | none => false) then opaqueWalkP dirS unpacked rest skip
+    else if q = dirS then opaqueWalkP dirS unpacked rest none
+    else if unpacked.contains q then opaqueWalkP dirS unpacked rest none
     else do
       let r ← sys (.removeAll q)
-      if isErr r then pure r else opaqueWalkP dirS unpacked rest (q :: removed)
+      if isErr r then pure r else opaqueWalkP dirS unpacked rest (some d)
 
 def layerFinish (dest : Str) (st : LState) (out : Out) : Prog (Out × Nat) := do
   -- deferred os.RemoveAll(aufsTempdir) runs on every exit once the directory was made
@@ -309,7 +310,7 @@ def layerLoop (dest : Str) (o : Opts) : List Entry → LState → Prog (Out × N
             let t ← sys (.listTree dr)
             match t with
             | .tree items =>
-              let w ← opaqueWalkP dr st.unpacked items []
+              let w ← opaqueWalkP dr st.unpacked items none
               if isErr w then layerFinish dest st .err else layerLoop dest o es st
             | .err .ENOENT => layerLoop dest o es st
             | _ => layerFinish dest st .err
@@ -328,6 +329,9 @@ def layerLoop (dest : Str) (o : Opts) : List Entry → LState → Prog (Out × N
         let needRm : Bool := match l with
           | .stat s => !(s.kind == .dir) || e.typ != .dir
           | _ => false
+        -- the destination itself is never traded for a non-directory (fix D17)
+        if needRm && p = clean dest && e.typ != .dir then layerFinish dest st .err
+        else
         let rm ← (if needRm then sys (.removeAll p) else pure .ok)
         if isErr rm then layerFinish dest st .err
         else
